@@ -224,8 +224,11 @@ def build_model(cfg, install=True, contrib_order=None):
     from taurex.data.profiles.pressure import SimplePressureProfile
     if install:
         install_opacities(cfg)
+    ratio = cfg.get('ratio', 0.17)
+    if isinstance(ratio, (list, tuple)):
+        ratio = list(ratio)      # the chemistry keeps (and writes into) it
     chem = TaurexChemistry(fill_gases=list(cfg.get('fill', ['H2', 'He'])),
-                           ratio=cfg.get('ratio', 0.17))
+                           ratio=ratio)
     for m in cfg['molecules']:
         chem.addGas(make_gas(m))
     pl = cfg.get('planet', {})
